@@ -20,7 +20,7 @@ LEVEL = 'exploration'
 RULE = ('Runs are (a) setter-history machines: 3-30 ops from {set gamma, set gbEnergy, set site type (5 kinds, by name), read GBk/areaFactor/volumeFactor/gbRemoval/areaRemoval, '
         'Rcrit(dG), Gcrit(dG,R)} on a NucleationBarrierParameters or a PrecipitateParameters object, each read compared with a fresh twin and with the reference Clemm-Fisher formulas '
         'and identities; (b,c) precipitation worlds (stub 1-3 phases with all site types and parent-phase nucleation, real Al-Zr) with a tap on _calcNucleationSites and per-step checks '
-        'of Rcrit, Gcrit, impingement, rate, incubation factor. Non-trivial = at least 3 reads after a setter (a) or at least 5 steps with positive driving force (b,c); '
+        'of Rcrit, Gcrit, impingement, rate, incubation factor. At every seventh visited nucleating state the rate functions themselves are called (zeldovich, incubationTime, nucleationRate at five times and at infinity, scalar and array form): factor in [0,1], rising with time, steady-state limit. Non-trivial = at least 3 reads after a setter (a) or at least 5 steps with positive driving force (b,c); '
         'distinct = distinct record digest; signature = (kind, site types used, events).')
 ASSUMPTIONS = ['k values and driving forces are those the machines/runs visit (sample, not sweep); monotonicity of the steady-state rate in the driving force is checked along isothermal trajectories only.',
                'Total site densities N0 are taken from the model (configuration); asserted: available sites >= 0, <= N0 + parent-surface sites, equal to N0 - occupied for single-phase runs (independent occupancy formulas), and non-increasing while every phase\'s occupancy moments grow.',
@@ -301,6 +301,29 @@ class NucleationMonitor:
                     cnt['incubation_checks'] = cnt.get('incubation_checks', 0) + 1
                     if J > jss * ns * (1 + 1e-9) + 1e-300:
                         F.add('C14.incubation_factor', f'step {n} phase {p}: recorded nucleation rate {J!r} exceeds steady-state rate per site {jss!r} x available sites {ns!r} (incubation factor would be {J / max(jss * ns, 1e-300)!r} > 1)', q='incubation')
+                # the rate functions themselves at this visited state: incubation factor in [0,1], rising with time; scalar and array calls agree
+                if cnt['positive_dG_steps'] % 7 == 1:
+                    from kawin.precipitation import NucleationRate as NR
+                    tau = float(np.squeeze(NR.incubationTime(be, Z, m.matrixParameters)))
+                    z_k = float(np.squeeze(NR.zeldovich(T, Rc, pp)))
+                    cnt['function_checks'] = cnt.get('function_checks', 0) + 1
+                    if abs(z_k - Z) > 1e-9 * Z:
+                        F.add('C14.zeldovich_formula', f'step {n} phase {p}: zeldovich(T={T}, Rcrit={Rc!r}) = {z_k!r}, reference {Z!r}', q='Z')
+                    if not math.isfinite(tau) or tau < 0:
+                        F.add('C14.finite', f'step {n} phase {p}: incubation time {tau!r}', q='tau')
+                    else:
+                        times = [tau * f for f in (0.05, 0.3, 1.0, 4.0, 100.0)] if tau > 0 else [1e-3, 1.0, 1e3]
+                        rk = [float(np.squeeze(NR.nucleationRate(z_k, be, Gc, T, tau, time=tk))) for tk in times] + [float(np.squeeze(NR.nucleationRate(z_k, be, Gc, T, tau)))]
+                        jss_k = z_k * be * math.exp(-Gc / (kB * T))
+                        if any(not math.isfinite(r) or r < 0 or r > jss_k * (1 + 1e-12) for r in rk):
+                            F.add('C14.incubation_function', f'step {n} phase {p}: nucleationRate at times {times + ["inf"]} = {rk}: not within [0, steady-state rate {jss_k!r}]', q='range')
+                        elif any(b < a * (1 - 1e-12) for a, b in zip(rk[:-1], rk[1:])):
+                            F.add('C14.incubation_function', f'step {n} phase {p}: nucleationRate falls with time: times {times + ["inf"]} -> {rk}', q='monotone_time')
+                        elif abs(rk[-1] - jss_k) > 1e-9 * jss_k:
+                            F.add('C14.incubation_function', f'step {n} phase {p}: nucleationRate at infinite time {rk[-1]!r} is not the steady-state rate {jss_k!r}', q='limit')
+                        arr = np.asarray(NR.nucleationRate(np.full(len(times), z_k), np.full(len(times), be), np.full(len(times), Gc), np.full(len(times), T), np.full(len(times), tau), time=np.array(times)), dtype=float)
+                        if arr.shape != (len(times),) or not np.allclose(arr, rk[:-1], rtol=1e-12, atol=0):
+                            F.add('C14.incubation_function', f'step {n} phase {p}: array call of nucleationRate gives {arr.tolist()}, scalar calls {rk[:-1]}', q='array_scalar')
                 key = p
                 prev = self.prev.get(key)
                 if self.iso and len(m.elements) == 1 and len(m.phases) == 1 and prev is not None and prev[0] > dG and jss > prev[1] * (1 + 1e-6) and not clamped and prev[2] == T:
